@@ -13,6 +13,7 @@
 //! All randomness comes from one SplitMix64 state.
 
 pub mod dev;
+pub mod tcpsim;
 
 use std::io::{self, BufRead, Write};
 
